@@ -169,7 +169,11 @@ func (vc *VC) callStatic(act *Act, st *State, callee *ssa.Function, fnVal Val, a
 					for k, p := range callee.Params {
 						names[k] = p.Name()
 					}
+					if cv, ok := fnVal.(ClosureV); ok {
+						vc.closureCtx = &cv // the contract of a closure may mention its captured variables
+					}
 					res = vc.applyContract(act, st, fc, names, args, paramTypes(callee), resT, sig, site, "call "+key)
+					vc.closureCtx = nil
 				}
 			} else if ic := vc.eng.ifaceContractOfImpl(callee); ic != nil && !(ic.Pure && trivialBody(callee)) {
 				names := ic.ParamNames
@@ -450,7 +454,7 @@ func (vc *VC) builtin(act *Act, st *State, bi *ssa.Builtin, common *ssa.CallComm
 		vc.fireMapEvent(act, st, "mapdelete", common.Args[0], site)
 		key := vc.mapKey(st, args[1], mt.Key())
 		w := width(mt.Elem()) + 1
-		base := vc.def("mb", "Int", fmt.Sprintf("(* %s %d)", key, w))
+		base := vc.mapSlot(key, w)
 		vc.frameCheck(st, m.ref, "", "", "mapdelete", vc.mapWhat(common.Args[0]), site.Pos())
 		st.mi = vc.def("MI", memSort, fmt.Sprintf("(store %s %s (store (select %s %s) %s 0))", st.mi, m.ref, st.mi, m.ref, base))
 		return nil
@@ -548,6 +552,18 @@ func (vc *VC) applyContract(act *Act, st *State, fc *FuncContract, names []strin
 	// variadic positional aliases
 	for k := range args {
 		env.vars[fmt.Sprintf("arg%d", k)] = TV{args[k], argTypes[k]}
+	}
+	if cv := vc.closureCtx; cv != nil {
+		for k, fv := range cv.fn.FreeVars {
+			if k < len(cv.bind) {
+				if p, ok := cv.bind[k].(PtrV); ok {
+					et := fv.Type().(*types.Pointer).Elem()
+					if _, exists := env.vars[fv.Name()]; !exists {
+						env.vars[fv.Name()] = TV{vc.load(pre, p, et), et}
+					}
+				}
+			}
+		}
 	}
 	// lets are evaluated in the pre-state
 	pe := *env
@@ -944,6 +960,10 @@ func (vc *VC) callbackLoop(act *Act, st *State, callee *ssa.Function, ec *FuncCo
 	}
 	vc.callFrameCheck(act, st, items, "callback-loop "+callee.String(), site)
 	entryTop := st.top
+	for n, inv := range lc.Invariants {
+		f := vc.evalBool(vc.specEnv(act, st, act.entry, "invariant", nil), inv)
+		vc.oblige(st, &Obligation{Name: fmt.Sprintf("%s#callback-loop#inv-entry#%s", vc.eng.shortName(act.fn), clauseName(inv, n)), Kind: "loop-invariant-entry", Clause: inv.Text, Tags: vc.clauseTags(act.fc, inv), Src: vc.srcPos(site.Pos())}, f)
+	}
 	vc.havocItems(st, items, ghosts)
 	for _, inv := range lc.Invariants {
 		vc.assume(st, vc.evalBool(vc.specEnv(act, st, act.entry, "invariant", nil), inv))
@@ -964,6 +984,12 @@ func (vc *VC) callbackLoop(act *Act, st *State, callee *ssa.Function, ec *FuncCo
 	}
 	vc.inline(act, body, cv.fn, cargs, cv.bind, cresT)
 	vc.loopFrames = saved
+	if !body.dead {
+		for n, inv := range lc.Invariants {
+			f := vc.evalBool(vc.specEnv(act, body, act.entry, "invariant", nil), inv)
+			vc.oblige(body, &Obligation{Name: fmt.Sprintf("%s#callback-loop#inv-preserved#%s", vc.eng.shortName(act.fn), clauseName(inv, n)), Kind: "loop-invariant-preserved", Clause: inv.Text, Tags: vc.clauseTags(act.fc, inv), Src: vc.srcPos(site.Pos())}, f)
+		}
+	}
 	if resT == nil {
 		return nil
 	}
